@@ -772,6 +772,7 @@ def run(ctx):
 
     from c04_mapping import run_mappings
     run_mappings(ctx)
+    run_aliasing(ctx)
     ctx.exhaustive = False
 
 
@@ -798,3 +799,73 @@ def normalize_fails(raw, out):
     except Exception as e:
         return {'malformed-output': repr(e)}
     return None
+
+
+def run_aliasing(ctx):
+    """the builders must not share mutable state with their callers: a list RETURNED by the library and then edited by
+    the caller, or an argument list REUSED (edited and passed again), must not change constraints built before or after"""
+    import_impl()
+    from cnfgen.formula.cnf import CNF
+    from cnfgen.formula.opb import OPB
+    rng = ctx.rng
+    for it in range(40 if ctx.tier == 'quick' else 400):
+        fc = rng.choice([CNF, OPB])
+        n, m = rng.randint(2, 3), rng.randint(2, 6)
+        which = rng.choice(['complete', 'injective', 'nondecreasing'])
+
+        def build(mutate):
+            F = fc()
+            f = F.new_binary_mapping(n, m)
+            if mutate:
+                for _ in range(3):
+                    c = f.forbid(rng_local.randint(1, n), rng_local.randint(0, m - 1))
+                    c.append(987)
+                    c.reverse()
+            getattr(F, 'force_%s_mapping' % which)(f)
+            return [list(x) if not isinstance(x, list) else [tuple(t) if isinstance(t, (list, tuple)) else t for t in x] for x in F]
+        import random as _r
+        rng_local = _r.Random(it)
+        a = outcome(build, False)
+        rng_local = _r.Random(it)
+        b = outcome(build, True)
+        ctx.count('aliasing-returned-lists', (fc.__name__, n, m, which, it), nontrivial=True, sample=dict(cls=fc.__name__, shape=[n, m], constraint=which))
+        if a != b:
+            ctx.violation('counterexample', 'force_%s_mapping builds different constraints after the caller edited lists returned by forbid()' % which,
+                          dict(input=dict(cls=fc.__name__, shape=[n, m], constraint=which, edit='c = f.forbid(i,j); c.append(987); c.reverse()'), clean=str(a)[:400], after_edit=str(b)[:400]),
+                          True, site='aliasing', cls='forbid-returned-list')
+        # an argument buffer reused across calls
+        G = OPB()
+        stated = []
+        row = [(1, 1), (2, -2), (1, 3), '>=', 2]
+        for step in range(4):
+            row[-1] = rng.randint(0, 3)
+            row[-2] = rng.choice(['>=', '==', '<=', '>', '<'])
+            row[0] = (rng.randint(1, 3), rng.choice([1, -1]))
+            stated.append([x for x in row])
+            r = outcome(G.add_constraint, row)
+            if r[0] != 'ok':
+                break
+        from cnfgen.formula.baseopb import normalize_opb
+        want = [normalize_opb(list(s)) for s in stated]
+        got = [list(c) for c in G]
+        ctx.count('aliasing-argument-buffer', it, nontrivial=True, sample=dict(stated=str(stated)))
+        if [[tuple(t) if isinstance(t, (list, tuple)) else t for t in c] for c in got] != [[tuple(t) if isinstance(t, (list, tuple)) else t for t in c] for c in want]:
+            ctx.violation('counterexample', 'constraints stored by add_constraint change when the caller reuses its argument list',
+                          dict(input=dict(stated=str(stated)), stored=str(got)), True, site='aliasing', cls='add_constraint-argument-buffer')
+        # clause buffers with add_clause / add_linear on both classes
+        for fc2 in (CNF, OPB):
+            H = fc2()
+            buf = [1, -2, 3]
+            seen = []
+            for step in range(3):
+                buf[rng.randrange(3)] *= -1
+                seen.append(list(buf))
+                H.add_clause(buf)
+            got = [list(c) for c in H]
+            want = [list(c) for c in fc2([list(s) for s in seen])] if fc2 is CNF else None
+            if fc2 is CNF and got != want:
+                ctx.violation('counterexample', 'clauses stored by add_clause change when the caller reuses its list', dict(input=dict(stated=str(seen)), stored=str(got)), True,
+                              site='aliasing', cls='add_clause-argument-buffer')
+            if fc2 is OPB and [[l for (_, l) in c[:-2]] for c in got] != seen:
+                ctx.violation('counterexample', 'constraints stored by OPB.add_clause change when the caller reuses its list', dict(input=dict(stated=str(seen)), stored=str(got)), True,
+                              site='aliasing', cls='opb-add_clause-argument-buffer')
